@@ -288,7 +288,7 @@ def _fstring_text(quote: str, raw: bool) -> str:
 
 def _fstring_patterns(quote: str, raw: bool) -> str:
     text = _fstring_text(quote, raw)
-    return choice(LBrace=text + r"\{(?!\{)", End=text + quote)
+    return choice(LBrace=text + r"\{(?!\{)", End=text + quote, Stray=text + r"\}")
 
 
 def _fstring_spec_patterns(quote: str) -> str:
@@ -567,6 +567,8 @@ def handle_fstring_progs(state: TokenizerState, endprog: EndProg) -> Generator[T
     if (not endmatch) or (not endmatch.lastgroup):
         return False
     start, end = endmatch.span(endmatch.lastgroup)
+    if endmatch.lastgroup == "Stray":
+        raise TokenError("f-string: single '}' is not allowed", (state.lnum, end - 1))
     if endmatch.lastgroup == "End":  # quote match
         middle_end = end - len(endprog.quote)
         if (middle_end > state.pos) or endprog.text:
